@@ -18,6 +18,9 @@ ANCHORS = [
     (2021, 3, 28, 2, 30, 0), (2021, 10, 31, 2, 30, 0), (2021, 3, 14, 2, 30, 0), (2021, 11, 7, 1, 30, 0),
     (2019, 2, 28, 23, 59, 59), (2024, 3, 1, 0, 0, 0), (2023, 6, 30, 12, 0, 0), (1999, 12, 31, 23, 59, 59),
     (2038, 1, 19, 3, 14, 7),
+    # leap days, also of years that are leap years by the 400-year rule only, and the days around a missing 29 February
+    (2000, 2, 29, 12, 0, 0), (2000, 2, 29, 23, 59, 59), (2400, 2, 29, 6, 30, 0), (1996, 2, 29, 0, 0, 1), (2024, 2, 29, 18, 45, 10),
+    (2100, 2, 28, 23, 59, 59), (2100, 3, 1, 0, 0, 0), (1904, 2, 29, 9, 9, 9),
     # America/Havana switches at local midnight: 00:00 does not exist on 2021-03-14 and occurs twice on 2021-11-07
     (2021, 3, 14, 12, 0, 0), (2021, 11, 7, 12, 0, 0), (2021, 11, 7, 0, 30, 0),
 ]
